@@ -279,6 +279,13 @@ func (v *V) slot(rv reflect.Value, depth int) M {
 		for i, k := range keys {
 			tv := &V{p: v.p, seen: map[ident]int{}, Nodes: []M{}}
 			ks := tv.slot(k, 0)
+			kk := k
+			for kk.Kind() == reflect.Interface && !kk.IsNil() {
+				kk = kk.Elem()
+			}
+			if ks["k"] == "f" && (kk.Kind() == reflect.Float32 || kk.Kind() == reflect.Float64) && kk.Float() == 0 {
+				ks = M{"k": "f", "g": ks["g"], "b": F64(0)} // -0 and +0 are one key after a round trip: one place in the order
+			}
 			kj, _ := json.Marshal([]interface{}{ks, tv.Nodes}) // struct keys: their fields order the entries
 			kvs[i] = kv{string(kj), k}
 		}
